@@ -35,6 +35,8 @@ RULE = ("templates rendered from a random item tree: text / ## comments / <%doc>
 ASSUMPTIONS = [
     "the Python-level call finders (babel.messages.extract.extract_python, lingua.extractors.python) are oracles: "
     "the model receives their answers for the strings it hands over; their own correctness is outside the property",
+    "since 5365b81 an expression with filters is handed to the finder as '(code), (filters,)'; the model builds that "
+    "string itself from Expression.code.code and Expression.escapes",
     "planted calls keep the function name, the opening parenthesis and the first message literal on one line, so "
     "'the line on which the call is written' is unambiguous",
     "generated Python is syntactically valid (mako's lexer parses every fragment while building the tree)",
@@ -411,24 +413,24 @@ class Gen:
                 sc = r.choice(["adjacent", "adjacent", "adjacent", "gap", "text", "quiet-construct", "untagged-after-text",
                                "second-block", "none"])
                 if sc == "adjacent":
-                    out.append(self.construct(depth, allow_filter_call=False))
+                    out.append(self.construct(depth))
                 elif sc == "gap":
                     out.append(self.blank_item())
-                    out.append(self.construct(depth, allow_filter_call=False))
+                    out.append(self.construct(depth))
                 elif sc == "text":
                     out.append(self.text_item())
-                    out.append(self.construct(depth, allow_filter_call=False))
+                    out.append(self.construct(depth))
                 elif sc == "quiet-construct":
                     out.append({"t": "exprline", "ind": "", "parts": [{"text": "<h1>"}, {"expr": {"body": self.py(0), "lead": "", "trail": "", "filter": None}}, {"text": "</h1>"}]})
-                    out.append(self.construct(depth, allow_filter_call=False))
+                    out.append(self.construct(depth))
                 elif sc == "untagged-after-text":
                     out.append(self.text_item())
                     out.append(self.plain_comment())
-                    out.append(self.construct(depth, allow_filter_call=False))
+                    out.append(self.construct(depth))
                 elif sc == "second-block":
                     out.append({"t": "exprline", "ind": "", "parts": [{"expr": {"body": self.py(0), "lead": "", "trail": "", "filter": None}}]})
                     out += self.tr_block()
-                    out.append(self.construct(depth, allow_filter_call=False))
+                    out.append(self.construct(depth))
                 last_cmt = False
                 if sc == "none":
                     last_cmt = True
